@@ -391,6 +391,29 @@ def run_direct(case):
         if len(d) > 1:
             d = d.rstrip('/')
         TrashedFile(loc, None, 'i', 'f').original_location_matches_path(d or '/')
+    # the directory a run is scoped to: the path argument resolved against the
+    # directory the command is started in - "/" included
+    from trashcli.restore.restore_arg_parser import RestoreArgParser
+    import posixpath
+    for i in range(200):
+        curdir = rng.choice(['/', '/', '/a', '/a/b', '/a b', '/home/u', '/a/'])
+        parg = rng.choice(['', '', 'x', 'x/y', '.', '..', './x', 'x/', '/abs/p',
+                           '/', '//d', '../..', 'a/../b'])
+        try:
+            got = RestoreArgParser().parse_restore_args(
+                ['trash-restore'] + ([parg] if parg else []), curdir).path
+        except SystemExit:
+            continue
+        want = posixpath.normpath(posixpath.join(curdir, parg))
+        if want.startswith('//'):
+            want = '/' + want.lstrip('/')
+        out['obs']['scope_paths_checked'] = out['obs'].get('scope_paths_checked', 0) + 1
+        if got != want and not (parg.startswith('//')):
+            out['violations'].append({
+                'mechanism': 'scope-of-run-miscomputed',
+                'detail': {'curdir': curdir, 'argument': parg, 'got': got,
+                           'want': want}})
+            break
     for k, nn in contracts.SINK.counts.items():
         out['obs']['c_' + k] = nn
     out['obs']['direct_accepted'] = accepted
